@@ -17,7 +17,7 @@ func init() {
 		Explanation: "Binding of keys to listeners in the configuration start code, as value-provenance facts with loop-iteration identity: (BIND) every serving goroutine pairs a listener and a service that come from the same iteration of the configuration loop — " +
 			"the listener address and the key material given to that service derive from the same range element (the same services entry, or the same (port, list) tuple of the legacy map), the service is created inside the loop and the listener in the same or a nested loop; " +
 			"(NOSHARE) every key list is created per iteration and reaches exactly one WithCiphers; (DEDUP) the per-service key list is built by a forward range over the entry's keys that skips a key exactly when (cipher, secret) is already in a map created in that call, " +
-			"pushes in order (first ID wins), records the pair after pushing, and builds each entry from the ID, cipher and secret of the same key element; the legacy map groups each key under its own port; (SEARCH) the per-key trial decryption tries every key of the list with that key's own header size; (CLOSEDGUARD, HANDLECLOSE) a released listener handle of an old generation excludes the closed state before competing for the shared socket and its Close always closes the close channel, so old keys stop working on a retained address.",
+			"pushes in order (first ID wins), records the pair after pushing, and builds each entry from the ID, cipher and secret of the same key element; the legacy map groups each key under its own port; (SEARCH) the per-key trial decryption tries every key of the list with that key's own header size; (CLOSEDGUARD, HANDLECLOSE) a released listener handle of an old generation excludes the closed state before competing for the shared socket and its Close always closes the close channel, so old keys stop working on a retained address. (SNAPSHOT) the per-connection snapshot holds every key of the list; lists built in the start code are appended to, never prepended (configuration order: the first configured ID wins).",
 		NotDecided: "YAML decoding, what authentication then does at run time (C01/C03).",
 	})
 }
